@@ -1,5 +1,5 @@
 SPECIFICATION TraceSpec
 CONSTANTS PropTol = 2
-INVARIANTS HarnessKillContinuity C23_NoPanic C23_Frame C23_Unauthorised C23_DeadSlashedOnce C23_NoRewardAfterDeath
+INVARIANTS HarnessKillContinuity C23_NoPanic C23_Frame C23_Unauthorised C23_DeadSlashedOnce C23_NoRewardAfterDeath C23_UnlockKeepsDeath
 POSTCONDITION Accepted
 CHECK_DEADLOCK FALSE
